@@ -57,4 +57,11 @@ def r5(run, tree):
     mf.check_map(run, tree, aspects=("geometry", "inputs"))
 
 
-RULES = [r1_r2, r3, r5]
+def r_layer_views(run, tree):
+    from . import layer_folds as lf
+    run.rule("C11.R6", "component views and copies of a Layer keep its operation and options (shared with C19): map(layer.x) is reduced with the layer's operation",
+             "D7 fold of the Layer class", "", floor=4)
+    lf.check_layer_copies(run, tree)
+
+
+RULES = [r_layer_views, r1_r2, r3, r5]
